@@ -18,7 +18,7 @@ pub fn property() -> Property {
     Property {
         id: "C15",
         level: "exploration",
-        rule: "family `tunnel` (Lab-S end to end): create_udp_proxy -> real client -> TLS -> real server -> UDP recorder on loopback; datagram sizes from {1, 2, 3, 254-258, 1024, 1472, 8190-8194, 16382-16386, 32767, 32768, 65000, 65506, 65507} with keyed contents, sequences in both directions (0-3 replies of other sizes per request), strictly lock-step so that socket buffers cannot drop anything; a decoy UDP recorder must stay silent. Family `relay` (server side, controlled fragmentation): the public handle_udp_over_tcp fed a reference UDP-over-TCP byte stream (request header + u16-prefixed packets) through a stream channel cut at generated positions (inside the 2-byte prefix, inside the request, byte at a time, several packets in one chunk); datagrams observed at a loopback UDP socket, replies injected at the relay's socket and read back from the stream's writer channel under the reference framing. Oracles: one datagram in => exactly one identical datagram out, in order, at the requested target / at the application's socket; nothing else delivered to anyone. Non-trivial = size >= 256, or a cut inside a length prefix, or >= 2 packets back-to-back in one chunk. Distinct = distinct serialized case. Three tunnel cases in ten send a stray datagram from a third socket to the server's relay socket after exchange k: what becomes of that datagram is not judged, but every later datagram of the application must still arrive at the requested target and the third socket must receive nothing. One tunnel case in four closes the target's socket after exchange k, sends one datagram into the closed port (lost: nothing can deliver it), brings the target back on the same address and goes on: every later datagram must be delivered. One tunnel case in four lets the application go on from a new socket (same address, another port) after exchange k: answers must follow it there and the socket it left gets nothing more.",
+        rule: "family `tunnel` (Lab-S end to end): create_udp_proxy -> real client -> TLS -> real server -> UDP recorder on loopback; datagram sizes from {1, 2, 3, 254-258, 1024, 1472, 8190-8194, 16382-16386, 32767, 32768, 65000, 65506, 65507} with keyed contents, sequences in both directions (0-3 replies of other sizes per request), strictly lock-step so that socket buffers cannot drop anything; a decoy UDP recorder must stay silent. Family `relay` (server side, controlled fragmentation): the public handle_udp_over_tcp fed a reference UDP-over-TCP byte stream (request header + u16-prefixed packets) through a stream channel cut at generated positions (inside the 2-byte prefix, inside the request, byte at a time, several packets in one chunk); datagrams observed at a loopback UDP socket, replies injected at the relay's socket and read back from the stream's writer channel under the reference framing. Oracles: one datagram in => exactly one identical datagram out, in order, at the requested target / at the application's socket; nothing else delivered to anyone. Non-trivial = size >= 256, or a cut inside a length prefix, or >= 2 packets back-to-back in one chunk. Distinct = distinct serialized case. Three tunnel cases in ten send a stray datagram from a third socket to the server's relay socket after exchange k: what becomes of that datagram is not judged, but every later datagram of the application must still arrive at the requested target and the third socket must receive nothing. One tunnel case in four closes the target's socket after exchange k, sends one datagram into the closed port (lost: nothing can deliver it), brings the target back on the same address and goes on: every later datagram must be delivered. One tunnel case in four lets the application go on from a new socket (same address, another port) after exchange k: answers must follow it there and the socket it left gets nothing more. Family `backlog` (Lab-S, own server and client per case): a sibling stream made through the library API queues 0 / 8 / 200 / 1500 chunks of 16 KiB with send_data towards a sink, the association is made right behind it (it takes the same, pooled session) and 1-3 datagrams are sent at once: they arrive at the target exactly, in order, and the sibling's upload completes.",
         assumptions: vec![
             "kernel loopback delivers UDP datagrams up to 65507 bytes in lock-step without loss",
             "reference UDP-over-TCP framing (sing-box v2 connect format) in this module",
